@@ -316,3 +316,61 @@ pub fn exponents(bits: u32, tier: Tier) -> Vec<u64> {
     v.retain(|s| *s <= u32::MAX as u64);
     v
 }
+
+/// a shift amount of any primitive integer type: sign and magnitude
+#[derive(Clone, Copy, Debug, PartialEq, Eq)]
+pub struct Amt {
+    pub neg: bool,
+    pub mag: u128,
+}
+impl Amt {
+    /// low 32 bits of the two's complement image (`as u32`)
+    pub fn low32(&self) -> u32 {
+        let m = (self.mag & 0xffff_ffff) as u32;
+        if self.neg {
+            m.wrapping_neg()
+        } else {
+            m
+        }
+    }
+    /// representable in a type with the given |MIN| and MAX
+    pub fn fits(&self, min_mag: u128, max: u128) -> bool {
+        if self.neg {
+            self.mag <= min_mag
+        } else {
+            self.mag <= max
+        }
+    }
+}
+
+/// candidate shift amounts for the typed `<<` / `>>` operators (superset over all rhs types);
+/// an operation's aux value is an index into this list
+pub fn shift_candidates(bits: u32) -> Vec<Amt> {
+    let b = bits as u128;
+    let mut pos: Vec<u128> = vec![0, 1, 2, 7, 8, 9, b / 2, b - 1, b, b + 1, 2 * b - 1, 2 * b, 2 * b + 1, 126, 127, 128, 129, 254, 255, 256, 257];
+    for k in [15u32, 16, 31, 32, 63, 64, 127] {
+        let p = 1u128 << k;
+        pos.extend([p - 1, p, p + 1, p + b - 1, p + b, p + 3]);
+    }
+    pos.push(u128::MAX);
+    pos.push(u128::MAX - 1);
+    let mut neg: Vec<u128> = vec![1, 2, b - 1, b, b + 1, 127, 128, 129];
+    for k in [7u32, 15, 31, 32, 63, 127] {
+        let p = 1u128 << k;
+        neg.extend([p - 1, p, p + 1]);
+    }
+    let mut out: Vec<Amt> = Vec::new();
+    for m in pos {
+        let a = Amt { neg: false, mag: m };
+        if !out.contains(&a) {
+            out.push(a);
+        }
+    }
+    for m in neg {
+        let a = Amt { neg: true, mag: m };
+        if !out.contains(&a) {
+            out.push(a);
+        }
+    }
+    out
+}
